@@ -12,16 +12,16 @@ CHECKS = {
          'Same input spaces as C01; the event streams of the iterator, of the iterator with a peek before every next, of load(multi=true) and of repeated load(multi=false) on two back-ends must be a prefix (or, without error, a whole sentence) of the YAML event grammar with the anchor/alias id rules.',
          'Grammar only; the recogniser (harness/src/oracle/grammar.rs) is trusted.', '5 C02'),
  'C03': ('model-based generation: abstract node trees rendered by an independent spec-derived renderer under generated layout choices; expected events are a function of the tree; plus the test-suite corpus with layout-preserving metamorphic variants',
-         '1.5*10^5 (quick) / 3*10^6 (thorough) rendered streams covering every construct and layout choice the property lists, incl. tabs after document markers and line breaks between properties and content in flow collections (class histogram in the evidence), compared event by event (kind, text, style, anchor link, tag, explicit start) on two back-ends; 308 non-error suite cases x 4 variants against their tree: expectation.',
+         '6*10^5 (quick) / 3*10^6 (thorough) rendered streams covering every construct and layout choice the property lists, incl. tabs after document markers and line breaks between properties and content in flow collections (class histogram in the evidence), compared event by event (kind, text, style, anchor link, tag, explicit start) on two back-ends; 308 non-error suite cases x 4 variants against their tree: expectation.',
          'The renderer (harness/src/model.rs, written from the YAML 1.2.2 productions) is trusted to emit only well-formed streams; simple scalar mode here, tricky scalars are C04 / C05.', '5 C03'),
  'C04': ('model-based generation of presentation programs (atoms + separators) whose YAML text and denoted value are both read off the program; contexts x back-ends; plus an exhaustive escape / two-atom scope',
-         '2*10^5 (quick) / 4*10^6 (thorough) programs over plain / single / double style with every escape form, doubled quotes, interior blanks, folds of 1..3 breaks with blank and tab padding, escaped breaks, indicator and non-ASCII characters, in 10 syntactic contexts (block and root contexts also with the scalar as the last thing of the input) on StrInput, BufferedInput and TestInput<8>, multi-line programs also with CR LF and lone CR breaks; the whole event list (value, style) is asserted.',
+         '8*10^5 (quick) / 4*10^6 (thorough) programs over plain / single / double style with every escape form, doubled quotes, interior blanks, folds of 1..3 breaks with blank and tab padding, escaped breaks, indicator and non-ASCII characters, in 10 syntactic contexts (block and root contexts also with the scalar as the last thing of the input) on StrInput, BufferedInput and TestInput<8>, multi-line programs also with CR LF and lone CR breaks; the whole event list (value, style) is asserted.',
          'The sanitiser keeps programs inside the style productions by construction; texts are those expressible in the chosen style.', '5 C04'),
  'C05': ('model-based generation of block scalar cases with a value function written from YAML 1.2.2 8.1; bounded-exhaustive line lists + proptest cases; contexts x back-ends',
-         'Every line list of <= 4 (quick) / <= 5 (thorough) lines over 6 line shapes x style x chomping x 4 contexts x 4 end shapes exhaustively, plus 10^5 / 2*10^6 generated cases (30 line texts, empty lines with spaces, explicit indicators, header comments, content indentation up to n+12, parents at indentation 14 and 126, sibling or three end-of-input shapes) on StrInput, BufferedInput, TestInput<8>, TestInput<128>, and again with CR LF breaks, lone CR breaks and a tab after each document marker; the whole event list is asserted.',
+         'Every line list of <= 4 (quick) / <= 5 (thorough) lines over 6 line shapes x style x chomping x 4 contexts x 4 end shapes exhaustively, plus 4*10^5 / 2*10^6 generated cases (30 line texts, empty lines with spaces, explicit indicators, header comments, content indentation up to n+12, parents at indentation 14 and 126, sibling or three end-of-input shapes) on StrInput, BufferedInput, TestInput<8>, TestInput<128>, and again with CR LF breaks, lone CR breaks and a tab after each document marker; the whole event list is asserted.',
          'I10 (no document-marker lines at indentation 0), I17 (keep with an unterminated blank last line is not value-asserted), no explicit indicator on top-level scalars.', '5 C05'),
  'C06': ('fault injection: one grammar-derived damage operator applied at a renderer-recorded site of a generated well-formed stream; oracle = the parser must return an error',
-         '1.5*10^5 (quick) / 4.5*10^6 (thorough) damaged streams over 15 damage operators (each the listed kind of ill-formedness, constructed so the result is ill-formed whatever the surroundings), operator chosen among those applicable to the stream; plus the 94 error cases of the test suite; StrInput and BufferedInput.',
+         '6*10^5 (quick) / 4.5*10^6 (thorough) damaged streams over 15 damage operators (each the listed kind of ill-formedness, constructed so the result is ill-formed whatever the surroundings), operator chosen among those applicable to the stream; plus the 94 error cases of the test suite; StrInput and BufferedInput.',
          'The undamaged stream must be accepted (differential precondition, C03 judges it); two accepted sub-classes are open known findings, each keyed on its cause (F15: a plain scalar scanned inside the flow collection before the offending line; F25: tab at column 0 under a parent at indentation <= 0).', '5 C06'),
  'C07': ('model-based: independent reference loader (fold of the event list) compared with the four loaders over bounded-exhaustive and proptest inputs',
          'Every accepted input of the text spaces (and rendered documents) is folded from its push-interface events by a reference loader and compared document by document with Yaml, YamlOwned, MarkedYaml and MarkedYamlOwned loads; load fails iff the parser fails, same error.',
@@ -30,7 +30,7 @@ CHECKS = {
          'Every string of length <= 4 (quick) / <= 5 (thorough) over the 36 characters that occur in core-schema literals x 16 (style, tag) pairs through the resolver API, every string of length <= 3 / <= 4 x 12 pairs through load_from_str of a rendered document, plus boundary-number and word templates; borrowed vs owned resolvers compared.',
          'f64::from_str is trusted for the value of an accepted float literal; "within 64 bits" read as fits-i64 (I2).', '5 C08'),
  'C09': ('round-trip oracle (load . emit = id, emit . load . emit = emit) over bounded-exhaustive strings in four positions and proptest prop_recursive value trees',
-         'Every string of length <= 3 (quick) / <= 4 (thorough) over a 30-symbol alphabet as root, sequence item, mapping key and mapping value under the 4 emitter settings, plus 10^5 / 2*10^6 generated value trees (boundary numbers, special floats, Unicode and control characters, >1024-char keys, collection keys, depth <= 5), plus single- and multi-line strings under 0..24 wrapping collections.',
+         'Every string of length <= 3 (quick) / <= 4 (thorough) over a 30-symbol alphabet as root, sequence item, mapping key and mapping value under the 4 emitter settings, plus 4*10^5 / 2*10^6 generated value trees (boundary numbers, special floats, Unicode and control characters, >1024-char keys, collection keys, depth <= 5), plus single- and multi-line strings under 0..24 wrapping collections.',
          'Domain excludes BadValue / Alias / Representation nodes (I9); equality is the library == plus variant equality.', '5 C09'),
  'C10': ('differential testing across six Input back-ends over bounded-exhaustive and proptest-generated inputs',
          'C01 spaces + exhaustive scope with CR / multi-byte characters + block scalars under indentation 0..140: (event, span) lists and first error identical on StrInput, BufferedInput and TestInput<8,16,64,128>.',
@@ -42,16 +42,16 @@ CHECKS = {
          'Every span endpoint and error marker is recomputed from the input characters (LF, CR, CRLF); nesting/order invariants; one-line plain and quoted scalar extents; Display format; MarkedYaml(Owned) node spans vs creating events, for eagerly loaded documents and for documents loaded with deferred resolution and then resolved.',
          'Synthesised null scalars and positions at end of input are exempt as stated in DESIGN.md §7 I5/I6; block scalar extent not asserted.', '5 C12'),
  'C13': ('generated JSON values x choice-stream-driven serialiser (whitespace, escapes) compared with the generating value',
-         '2*10^5 (quick) / 4*10^6 (thorough) JSON values (hostile strings as keys and values, boundary numbers, depth <= 8, chains to depth 200) serialised compact, pretty or with random space/tab/LF/CRLF runs around every token; load_from_str, load_from_parser over the string-slice back-end and the deferred loading mode must each return the generating value.',
+         '6*10^5 (quick) / 4*10^6 (thorough) JSON values (hostile strings as keys and values, boundary numbers, depth <= 8, chains to depth 200) serialised compact, pretty or with random space/tab/LF/CRLF runs around every token; load_from_str, load_from_parser over the string-slice back-end and the deferred loading mode must each return the generating value.',
          'The generator and serialiser are the JSON reference; numbers compared by exact value (I8).', '5 C13'),
  'C14': ('metamorphic relation (LF -> CRLF / CR) over bounded-exhaustive and proptest inputs',
          'Every CR-free generated input is re-parsed with CRLF and with lone CR: same events, scalar values, line/col, outcome and error text.',
          'Differential against the implementation itself by design; error index not compared (I14).', '5 C14'),
  'C15': ('metamorphic relation over generated stream histories: parse(A1 ... Ak joined by document-end markers) = concatenation of parse(Ai) with anchor ids renumbered',
-         '10^5 (quick) / 2*10^6 (thorough) histories of 2..4 parts drawn from model-rendered streams, the valid test-suite corpus, hand-picked state-stressing parts (all ordered pairs exhaustively) and soups; pull and push events on two back-ends and loaded documents must be the concatenation of the parts.',
+         '4*10^5 (quick) / 2*10^6 (thorough) histories of 2..4 parts drawn from model-rendered streams, the valid test-suite corpus, hand-picked state-stressing parts (all ordered pairs exhaustively), repetition parts (one counted feature 70 / 130 / 300 times; all ordered pairs exhaustively) and soups; pull and push events on two back-ends and loaded documents must be the concatenation of the parts.',
          'Differential against the parser on the parts; paired with C03 which judges the parts against the model.', '5 C15'),
  'C16': ('generated directive / tag scenarios against an independent tag resolver (handle table per document, percent-decoding as UTF-8)',
-         '10^5 (quick) / 2*10^6 (thorough) scenarios: 1..3 documents x 0..3 %TAG lines (5 handles x 5 prefixes) x %YAML position x reserved directive x every tag spelling on scalars, empty nodes, block and flow collections x keep_tags; expected either an error (duplicate / undeclared handle) or the exact handle+suffix of every node.',
+         '4*10^5 (quick) / 2*10^6 (thorough) scenarios: 1..3 documents x 0..3 %TAG lines (5 handles x 5 prefixes) x %YAML position x reserved directive x every tag spelling on scalars, empty nodes, block and flow collections x keep_tags; expected either an error (duplicate / undeclared handle) or the exact handle+suffix of every node.',
          'Resolver written from the property statement; escapes only in suffixes; with keep_tags later documents do not re-declare earlier handles (I7).', '5 C16'),
  'C17': ('model-based call-history testing (peek/next interpreter) with exhaustive histories on small streams + differential pull vs push',
          'Cursor model over the plain-iteration event list; all 3^n peek histories for streams <= 8 events and all <= 3-position histories for 9..12 events on small inputs and the corpus, sampled histories elsewhere; load(multi) and repeated load(single) must replay the same (event, span, error) story, with keep_tags off and (for inputs with directives) on.',
